@@ -4,8 +4,8 @@ CONSTANTS
   Null = "0"
   Kinds <- K2
   BatchSize = 3
-  MaxBlocks = 4
-  MaxXfers = 6
+  MaxBlocks = 3
+  MaxXfers = 5
   MaxPerBlock = 3
   Replica <- R2
   DiskBackend <- R1
